@@ -50,7 +50,63 @@ Qed.
 Lemma c12_report_lists_values : forall t pfx k v,
   In (k, v) (c12_vals t) -> In (c12_value_line (k, v)) (c12_report_lines t pfx).
 Proof.
-  intros [vals subs] pfx k v H. cbn [c12_report_lines c12_vals] in *.
-  apply in_or_app. left. apply in_map. apply c12_sort_in. exact H.
+  intros [vals subs] pfx k v H. unfold c12_report_lines, c12_value_line. cbn [c12_report_rlines c12_vals fst snd] in *.
+  rewrite map_app. apply in_or_app. left. rewrite map_map.
+  apply (in_map (fun kv : c12_str * c12_str => c12_render_rline (C12RValue (fst kv) (snd kv))) _ (k, v)).
+  apply c12_sort_in. exact H.
 Qed.
 
+(* ------------------------------------------------------------------ report() lists keys in std::map order *)
+From Coq Require Import Sorted.
+
+Lemma c12_byte_ltb_total : forall x y, c12_byte_ltb x y = false -> c12_byte_ltb y x = false -> x = y.
+Proof.
+  intros x y H1 H2. unfold c12_byte_ltb in *. apply N.ltb_ge in H1, H2.
+  assert (E : N_of_ascii x = N_of_ascii y) by lia.
+  rewrite <- (ascii_N_embedding x), <- (ascii_N_embedding y), E. reflexivity.
+Qed.
+
+Lemma c12_str_ltb_total : forall a b, c12_str_ltb a b = false -> c12_str_ltb b a = true \/ a = b.
+Proof.
+  induction a as [|x a IH]; intros [|y b] H; cbn in *; try discriminate; auto.
+  destruct (c12_byte_ltb x y) eqn:E1; [discriminate|].
+  destruct (c12_byte_ltb y x) eqn:E2; [left; reflexivity|].
+  pose proof (c12_byte_ltb_total x y E1 E2) as ->.
+  destruct (IH b H) as [Hl| ->]; [left; exact Hl|right; reflexivity].
+Qed.
+
+Definition c12_key_le {A} (x y : c12_str * A) : Prop := c12_str_ltb (fst y) (fst x) = false.
+
+Lemma c12_str_ltb_irrefl : forall a, c12_str_ltb a a = false.
+Proof.
+  induction a as [|x a IH]; [reflexivity|]. cbn. unfold c12_byte_ltb. rewrite N.ltb_irrefl. exact IH.
+Qed.
+
+Lemma c12_str_ltb_asym : forall a b, c12_str_ltb a b = true -> c12_str_ltb b a = false.
+Proof.
+  induction a as [|x a IH]; intros [|y b] H; cbn in *; try discriminate; try reflexivity.
+  unfold c12_byte_ltb in *.
+  destruct (N.ltb_spec (N_of_ascii x) (N_of_ascii y)); destruct (N.ltb_spec (N_of_ascii y) (N_of_ascii x));
+    try lia; try discriminate; try reflexivity; apply IH; exact H.
+Qed.
+
+Lemma c12_insert_hd : forall A k (a : A) l x, HdRel c12_key_le x l -> c12_key_le x (k, a) -> HdRel c12_key_le x (c12_insert k a l).
+Proof.
+  intros A k a l x Hl Hk. destruct l as [|[k' a'] l]; cbn; [constructor; exact Hk|].
+  destruct (c12_str_ltb k k'); constructor; [exact Hk|]. inversion Hl; assumption.
+Qed.
+
+Lemma c12_insert_sorted : forall A k (a : A) l, Sorted c12_key_le l -> Sorted c12_key_le (c12_insert k a l).
+Proof.
+  induction l as [|[k' a'] l IH]; intros H; cbn.
+  - constructor; constructor.
+  - inversion H as [|? ? Hs Hh]; subst. destruct (c12_str_ltb k k') eqn:E.
+    + constructor; [exact H|]. constructor. unfold c12_key_le. cbn. apply c12_str_ltb_asym. exact E.
+    + constructor; [apply IH; exact Hs|]. apply c12_insert_hd; [exact Hh|]. unfold c12_key_le. cbn. exact E.
+Qed.
+
+(* the order in which report() visits the entries of a node: ascending byte-wise (std::map<std::string,...>) *)
+Lemma c12_sort_sorted : forall A (l : list (c12_str * A)), Sorted c12_key_le (c12_sort l).
+Proof.
+  induction l as [|[k a] l IH]; cbn; [constructor|]. apply c12_insert_sorted. exact IH.
+Qed.
